@@ -56,6 +56,7 @@ impl PanicInfo {
 
 thread_local! {
     static LAST: RefCell<Option<PanicInfo>> = const { RefCell::new(None) };
+    static DEPTH: std::cell::Cell<u32> = const { std::cell::Cell::new(0) };
 }
 
 pub fn install_panic_hook() {
@@ -71,6 +72,11 @@ pub fn install_panic_hook() {
         } else {
             "<non-string payload>".to_string()
         };
+        // outside of `guard` nobody will look at the record: print like the default hook, in the
+        // format the driver parses
+        if DEPTH.with(|d| d.get()) == 0 {
+            eprintln!("thread panicked at {file}:{line}:0:\n{message}");
+        }
         LAST.with(|l| *l.borrow_mut() = Some(PanicInfo { file, line, message }));
     }));
 }
@@ -78,7 +84,10 @@ pub fn install_panic_hook() {
 /// Runs `f`; Ok(value) or Err(panic record). Requires `install_panic_hook`.
 pub fn guard<T>(f: impl FnOnce() -> T) -> Result<T, PanicInfo> {
     LAST.with(|l| *l.borrow_mut() = None);
-    match panic::catch_unwind(AssertUnwindSafe(f)) {
+    DEPTH.with(|d| d.set(d.get() + 1));
+    let r = panic::catch_unwind(AssertUnwindSafe(f));
+    DEPTH.with(|d| d.set(d.get() - 1));
+    match r {
         Ok(v) => Ok(v),
         Err(_) => Err(LAST.with(|l| l.borrow_mut().take()).unwrap_or(PanicInfo {
             file: "?".into(),
